@@ -21,3 +21,42 @@ pub(crate) fn point(name: &'static str) {
         hook(name);
     }
 }
+
+/// Pass-through wrappers around the synchronization primitives of this crate that report to the
+/// point hook (as `"sync"`) before every operation, so that a harness can park a thread between
+/// any two of them - including in windows that only exist after a change to the code.
+pub(crate) mod sync {
+    use std::sync::Arc;
+
+    use arc_swap::{AsRaw, Guard, RefCnt};
+
+    use super::point;
+
+    #[derive(Debug)]
+    pub(crate) struct ArcSwapAny<R: RefCnt>(arc_swap::ArcSwapAny<R>);
+
+    pub(crate) type ArcSwapOption<T> = ArcSwapAny<Option<Arc<T>>>;
+
+    impl<R: RefCnt> ArcSwapAny<R> {
+        pub(crate) fn load(&self) -> Guard<R> {
+            point("sync");
+            self.0.load()
+        }
+
+        pub(crate) fn store(&self, value: R) {
+            point("sync");
+            self.0.store(value);
+        }
+
+        pub(crate) fn compare_and_swap<C: AsRaw<R::Base>>(&self, current: C, new: R) -> Guard<R> {
+            point("sync");
+            self.0.compare_and_swap(current, new)
+        }
+    }
+
+    impl<T> ArcSwapAny<Option<Arc<T>>> {
+        pub(crate) const fn const_empty() -> Self {
+            Self(arc_swap::ArcSwapOption::const_empty())
+        }
+    }
+}
